@@ -11,9 +11,13 @@ func TestMain(m *testing.M) { vkit.Main(m) }
 func TestProp_Controlled(t *testing.T) { PartCtl.Run(t) }
 func TestProp_Stress(t *testing.T)     { PartStress.Run(t) }
 func TestRace_Stress(t *testing.T)     { PartStressRace.Run(t) }
+func TestProp_Tie(t *testing.T)        { PartTie.Run(t) }
+func TestRace_Tie(t *testing.T)        { PartTieRace.Run(t) }
 
 func TestReplay(t *testing.T) {
 	PartCtl.Replay(t, 1)
 	PartStress.Replay(t, 50)
 	PartStressRace.Replay(t, 50)
+	PartTie.Replay(t, 20)
+	PartTieRace.Replay(t, 20)
 }
